@@ -480,6 +480,7 @@ class Machine(Interp):
                 off = off + zint(x.length) * len(x.items)
             else:
                 off = off + 1
+        ops.suggest_split(lst, idx)
         raise Unsupported("symbolic list position does not provably fall into one segment")
 
     def sym_list_get(self, lst, idx):
@@ -858,6 +859,24 @@ class Machine(Interp):
         okn, _ = c.valid(n >= 0)
         if not okn:
             raise Unsupported("segment of possibly negative length")
+        if mode.get("splitat") is not None:
+            # the rounds fall into two classes at a known point (a position computed from the
+            # round index crosses a run boundary of a list it indexes): two consecutive runs
+            k = mode["splitat"]
+            if not c.valid(z3.And(k >= 0, k <= n))[0]:
+                raise Unsupported(f"loop at {key}: split point {z3.simplify(k)} is not provably within the run")
+            jv = seg.jvar
+            if seg.rev:  # iteration order is descending j: first the rounds [n-k, n)
+                s1 = Seg((seg.tag, "hi"), mk_int(k), jv, [ops.subst_j(x, jv, jv + (n - k)) for x in seg.items], True, seg.cls_note)
+                s2 = Seg((seg.tag, "lo"), mk_int(n - k), jv, list(seg.items), True, seg.cls_note)
+            else:
+                s1 = Seg((seg.tag, "lo"), mk_int(k), jv, list(seg.items), False, seg.cls_note)
+                s2 = Seg((seg.tag, "hi"), mk_int(n - k), jv, [ops.subst_j(x, jv, jv + k) for x in seg.items], False, seg.cls_note)
+            for part, sub in ((s1, "part1"), (s2, "part2")):
+                sig = yield from self.seg_rounds(key + (sub,), target, part, value_fn, fr, round_body)
+                if sig is not None:
+                    return sig
+            return NORMAL
         if mode.get("split0") or mode.get("peel"):
             if not c.branch(n > 0, "loop entered"):
                 return NORMAL
@@ -906,6 +925,9 @@ class Machine(Interp):
         c.effects, c.allocs = [], set()
         trace_mark = len(c.trace)
         c.generic.append((seg, j))
+        if not hasattr(c, "generic_keys"):
+            c.generic_keys = []
+        c.generic_keys.append(key)
         outer_log = getattr(fr, "access_log", None)
         fr.access_log = {}
         try:
@@ -913,6 +935,7 @@ class Machine(Interp):
             sig = yield from self.one_round(target, vals, value_fn, seg, fr, round_body, j)
         finally:
             c.generic.pop()
+            c.generic_keys.pop()
             effects, allocs = c.effects, c.allocs
             c.effects, c.allocs = saved_eff, saved_alloc
             round_log, fr.access_log = fr.access_log, outer_log
